@@ -7,12 +7,17 @@
   pinned snapshot (`integrateAsIs`, on the LENGTH of the last dimension) has the proved
   counterexample `asis_integrates_node_data` (tetrahedron: n_node = n_face = 4) and the partial
   theorem `asis_dispatch_rejects_partial`.
+
+  The float tolerance of the `values` clause is backed by `close_of_rounded` /
+  `spec_values_of_rounded` (Lemmas/IntegrateRound.lean): every order of summation, evaluated in the
+  standard model of binary64 arithmetic, stays inside `n_face·2⁻⁵²·Σ|area·value|`.
 -/
 import Mathlib.Tactic.Ring
 import Mathlib.Tactic.Positivity
 import Mathlib.Tactic.Linarith
 import Mathlib.Algebra.Order.Field.Rat
 import UxVerif.Lemmas.Integrate
+import UxVerif.Lemmas.IntegrateRound
 import UxVerif.Model.Integrate
 import UxVerif.Gen.Defaults
 
@@ -324,6 +329,108 @@ theorem asis_fails_spec :
   have := h.2 (by decide)
   revert this
   decide
+
+/-! ### the float tolerance of the specification is a theorem, for ANY order of summation
+
+  `Close` (what the driver evaluates on the implementation's float output) allows
+  `n_face · 2⁻⁵² · Σ|area·value|` around the exact sum.  Under the standard model of IEEE
+  binary64 arithmetic (every product and every addition has relative error ≤ 2⁻⁵³; a fused
+  multiply-add is the case "product error 0"; no underflow/overflow) EVERY bracketing of EVERY
+  permutation of the terms — left-to-right loop, pairwise, SIMD lanes, BLAS blocks — delivers a
+  value inside that tolerance.  So a `values` verdict of the check cannot be a rounding artefact of
+  whichever summation order `np.einsum` picks. -/
+
+theorem absQ_eq_abs (x : Rat) : absQ x = |x| := by
+  unfold absQ
+  split
+  · rw [abs_of_neg ‹_›]
+  · rw [abs_of_nonneg (not_lt.mp ‹_›)]
+
+theorem sumAbs_eq_sum (a : List Rat) : ∀ r : List Rat,
+    sumAbs a r = sumL ((a.zip r).map (fun p => |p.1 * p.2|)) := by
+  induction a with
+  | nil => intro r; simp [sumAbs, sumL]
+  | cons x a ih =>
+    intro r
+    cases r with
+    | nil => simp [sumAbs, sumL]
+    | cons y r => simp only [sumAbs, List.zip_cons_cons, List.map_cons, sumL, ih r, absQ_eq_abs]
+
+/-- unit round-off of IEEE binary64 (round to nearest): 2⁻⁵³ -/
+def u64 : Rat := ulp / 2
+
+/-- **any summation order is inside the tolerance**: if `x` is a possible binary64 result of
+    summing the products `areas[f]·row[f]` in the order/bracketing `t` (any permutation, any
+    tree), then `Close areas row x`. -/
+theorem close_of_rounded (areas row : List Rat) (t : SumTree Rat) (x : Rat)
+    (hperm : t.leaves.Perm (areas.zip row)) (hlen : row.length = areas.length)
+    (hn : areas.length ≤ 2 ^ 53) (h : Rounded u64 t x) : Close areas row x := by
+  have hu : (0 : Rat) ≤ u64 := by unfold u64 ulp; positivity
+  have hleaves : t.leaves.length = areas.length := by
+    rw [hperm.length_eq, List.length_zip, hlen, Nat.min_self]
+  have hexact : t.exact = dot areas row := by
+    rw [exact_eq_sum, dot_eq_sum_zip]
+    exact sumL_perm (hperm.map _)
+  have habs : t.absSum = sumAbs areas row := by
+    rw [absSum_eq_sum, sumAbs_eq_sum]
+    exact sumL_perm (hperm.map _)
+  have hnu : (t.leaves.length : Rat) * u64 ≤ 1 := by
+    rw [hleaves]
+    have : (areas.length : Rat) ≤ 2 ^ 53 := by exact_mod_cast hn
+    unfold u64 ulp
+    linarith
+  have := rounded_err_linear hu h hnu
+  rw [hexact, habs, hleaves] at this
+  unfold Close
+  rw [absQ_eq_abs]
+  have e : 2 * (areas.length : Rat) * u64 * sumAbs areas row
+      = (areas.length : Rat) * ulp * sumAbs areas row := by unfold u64; ring
+  linarith
+
+/-- **no rounding false alarm**: whatever order of summation the implementation uses for each
+    leading index, its binary64 output satisfies the `values` clause of the specification. -/
+theorem spec_values_of_rounded (g : Grid) (areas : List Rat) (a r : Arr Rat)
+    (h : FaceCentred g a) (ha : areas.length = g.nFace) (hn : g.nFace ≤ 2 ^ 53)
+    (hr : ∀ i, i < prodL a.shape.dropLast → ∃ v t, r.data[i]? = some v ∧
+      (SumTree.leaves t).Perm (areas.zip (rowAt g.nFace a.data i)) ∧ Rounded u64 t v) :
+    SpecValues areas a r := by
+  obtain ⟨_, hs, _, hlen, _⟩ := h
+  have hshape := dropLast_getLast _ _ hs
+  have hlen' : a.data.length = prodL a.shape.dropLast * g.nFace := by
+    rw [hlen]; conv_lhs => rw [hshape]
+    simp [prodL_append, prodL]
+  intro i hi
+  obtain ⟨v, t, hv, hp, hrd⟩ := hr i hi
+  refine ⟨v, hv, ?_⟩
+  rw [ha]
+  exact close_of_rounded areas _ t v hp
+    (by rw [rowAt_length _ _ _ _ hlen' hi, ha]) (by omega) hrd
+
+/-- the left-to-right loop of the terms in face order is one of the covered orders -/
+theorem close_of_rounded_loop (areas row : List Rat) (p : Rat × Rat) (qs : List (Rat × Rat))
+    (hz : areas.zip row = p :: qs) (hlen : row.length = areas.length)
+    (hn : areas.length ≤ 2 ^ 53) (x : Rat) (h : Rounded u64 (SumTree.chain p qs) x) :
+    Close areas row x :=
+  close_of_rounded areas row _ x (by rw [chain_leaves, hz]) hlen hn h
+
+/-- non-vacuity: a pairwise bracketing of a permuted 3-term sum with three non-zero rounding
+    errors, and the resulting value is inside the tolerance by `close_of_rounded` -/
+example :
+    let t : SumTree Rat := .add (.leaf 3 (5 / 8)) (.add (.leaf (1 / 2) 4) (.leaf 7 (-2)))
+    let x : Rat := (3 * (5 / 8) * (1 + u64) + (1 / 2 * 4 * (1 + 0) + 7 * (-2) * (1 + -u64)) * (1 + u64))
+      * (1 + -u64)
+    Rounded u64 t x ∧ Close [1 / 2, 3, 7] [4, 5 / 8, -2] x := by
+  intro t x
+  have hu : |u64| ≤ u64 := by unfold u64 ulp; norm_num [abs_of_nonneg]
+  have hu' : |(-u64)| ≤ u64 := by rw [abs_neg]; exact hu
+  have h0 : |(0 : Rat)| ≤ u64 := by unfold u64 ulp; norm_num
+  have hr : Rounded u64 t x :=
+    Rounded.add _ (Rounded.leaf _ _ _ hu)
+      (Rounded.add _ (Rounded.leaf _ _ _ h0) (Rounded.leaf _ _ _ hu') hu) hu'
+  refine ⟨hr, close_of_rounded _ _ t x ?_ rfl (by norm_num) hr⟩
+  simp only [t, SumTree.leaves, List.zip_cons_cons, List.zip_nil_right, List.cons_append,
+    List.nil_append]
+  exact List.Perm.swap _ _ _
 
 /-! ### non-vacuity -/
 
